@@ -65,6 +65,10 @@ pub fn full_ops() -> Vec<OpK> {
         OpK::Matmul { ta: true, tb: false, bias: true },
         OpK::UMul,
         OpK::UAdd,
+        OpK::Recip,
+        OpK::Sigmoid,
+        OpK::Softmax,
+        OpK::Axpy(-2.0),
     ]
 }
 
